@@ -28,10 +28,12 @@ META = dict(
          "fuel from some point on - tighter levels nest inside looser ones, a LEFT-associative chain a op b op c is ONE flat "
          "group [a, op, b, op, c], a POSTFIX chain a op op is ONE flat group [a, op, op] (chains of any length; loop "
          "induction over manyLoop), right-associative chains nest to the right, a RIGHT-associative ternary a op1 b op2 c "
-         "is one group of five nesting to the right, prefix operators stack, parentheses override "
+         "is one group of five nesting to the right, a LEFT-associative ternary chain a op1 b op2 c op1 d op2 e is ONE flat "
+         "group, prefix operators stack, parentheses override "
          "all; a kept (non-Suppress) lpar/rpar gives the group [lpar?, inner, rpar?], suppressed ones leave no trace. "
          "Class G: operand Word(cs); lpar and rpar each suppressed or kept; every level a LEFT- or RIGHT-associative binary, "
-         "a prefix, a postfix or a RIGHT-associative ternary operator without parse action; spellings non-empty, not starting "
+         "a prefix, a postfix or a LEFT- or RIGHT-associative ternary operator without parse action (all six kinds L1 L2 L3 R1 R2 "
+         "R3); spellings non-empty, not starting "
          "with a blank or operand character, first operators pairwise prefix-incomparable, a ternary level's second operator "
          "prefix-incomparable with every first operator. The earlier statements are kept and are instances: "
          "PP.Infix.infix_roundtrip_left_partial (C16Left.lean; class TL = G without postfix levels, suppressed parentheses; "
@@ -40,10 +42,9 @@ META = dict(
          "out for a postfix application. Supporting theorems: Gen.post_parse/Gen.goal_post (the _FB(last + op) lookahead "
          "succeeds, Group(last + op[1,...]) collects every operator and stops where the literal does not match), "
          "Gen.chain_parse/Gen.goal_binL (left-associative chains), Gen.goal_paren (all four suppress/keep combinations), "
-         "Gen.goal_lift (a tighter tree passes through a looser level of any of the five kinds unchanged: the _FB lookahead "
-         "fails), Gen.goal_atom/goal_pre/goal_binR/goal_ternR, Gen.p_nest, Left.chain_nest. "
+         "Gen.goal_lift (a tighter tree passes through a looser level of any of the six kinds unchanged: the _FB lookahead "
+         "fails), Gen.goal_atom/goal_pre/goal_binR/goal_ternR, Gen.goal_ternL/tern_parse/t_nest, Gen.p_nest, Left.chain_nest. "
          "PARTIAL - NOT proved, covered by the correspondence legs and the independent precedence-climbing oracle only: "
-         "LEFT-associative ternary levels, "
          "level parse actions, overlapping spellings (<, <=, *, **), ill-formed strings, evaluation (a corollary of the "
          "nesting) and packrat (C02's packrat_transparent covers the shared model, not parseStepX/_FB; packrat is compared on "
          "the real code on every case).",
@@ -94,6 +95,9 @@ THEOREMS = [
     "PP.Infix.Gen.goal_pre",
     "PP.Infix.Gen.goal_binR",
     "PP.Infix.Gen.goal_ternR",
+    "PP.Infix.Gen.goal_ternL",
+    "PP.Infix.Gen.tern_parse",
+    "PP.Infix.Gen.t_nest",
 ]
 
 WS_DEFAULT = " \t\n\r"
